@@ -789,6 +789,14 @@ class ConciliationState(_WorkingState):
 class _EndingState(_MasterSlaveState):
     """ Base class for ending (RESTARTING, SHUTTING_DOWN) states. """
 
+    def _activate_instances(self) -> Optional[SupvisorsStates]:
+        """ Do NOT allow CHECKED instances to be considered when Supvisors is ending.
+
+        A new Supvisors instance has no Master yet. Once RUNNING, it would be seen as a Master inconsistency,
+        which forces the FINAL state before everything is stopped.
+        """
+        return None
+
     def _master_enter(self) -> None:
         """ When entering an ending state, the Supvisors Master instance aborts all pending tasks
         and stops all applications.
